@@ -244,6 +244,11 @@ static int recv_events(m_ctx_t *c, int timeout) {
              * invalidates our pointer.
              */
             m_mod_t *mod = p->mod;
+            /*
+             * Only errors raised while consuming this very event matter:
+             * forget whatever errno value previous user callbacks left behind.
+             */
+            errno = 0;
             evt_priv_t *evt = new_evt(p);
             m_evt_t *msg = NULL;
             if (evt) {
